@@ -386,3 +386,173 @@ def single_edit_sequence(w, rng, st):
 def iface_ref_(st, cp):
     from .w2_ops import iface_ref
     return iface_ref(st, cp)
+
+
+# ================================================================ edits applied to a COPY of a sliver (no graph involved)
+@op('diff_copy_edit', 'read')
+def g_diff_copy_edit(w, rng, st):
+    nodes = [n for n in st.of_class('NetworkNode') if st.typ(n) != 'Facility']
+    if not nodes:
+        return None
+    nodes.sort(key=lambda n: -len(st.own_node(n)))
+    n = nodes[0] if rng.random() < 0.5 else rng.choice(nodes)
+    return {'node': st.name(n), 'edits': [{'kind': rng.choice(['remove_component', 'remove_all_components',
+                                                               'remove_service', 'remove_all_services', 'node_prop',
+                                                               'component_prop', 'service_prop', 'user_data_rmw',
+                                                               'add_component']),
+                                           'pick': rng.randrange(100), 'prop': rng.choice(['labels', 'capacities', 'user_data']),
+                                           'val': rng.randint(1, 9)} for _ in range(rng.choice([1, 1, 2]))]}
+
+
+@op('diff_copy_edit', 'read')
+def x_diff_copy_edit(w, s, st, info):
+    """C17's own wording: 'all single and combined edits applied to a copy'. The node sliver is rebuilt from the graph,
+    deep-copied, the copy is edited through the sliver classes' own API, and old.diff(new) / new.diff(old) must report
+    exactly the edits (tracked here as they are applied)."""
+    import copy
+    from fim.slivers.capacities_labels import Labels, Capacities
+    from fim.slivers.json_data import UserData
+    if st.dups:
+        raise SkipStep()
+    nn = [n for n in st.of_class('NetworkNode') if st.name(n) == s['node']]
+    if len(nn) != 1:
+        raise SkipStep()
+    n = nn[0]
+    for ids in (st.components_of(n), st.services_of(n)):
+        names = [st.name(i) for i in ids]
+        if len(set(names)) != len(names):
+            raise SkipStep()
+    nd = w.topo.nodes.get(s['node'])
+    if nd is None:
+        raise SkipStep()
+    a = nd.get_sliver()
+    b = copy.deepcopy(a)
+    exp = {'added': {'components': set(), 'services': set(), 'interfaces': set()},
+           'removed': {'components': set(), 'services': set(), 'interfaces': set()},
+           'modified': {'nodes': {}, 'components': {}, 'services': {}, 'interfaces': {}}}
+
+    def comps(x):
+        return x.attached_components_info.devices if x.attached_components_info is not None else {}
+
+    def svcs(x):
+        return x.network_service_info.network_services if x.network_service_info is not None else {}
+
+    def setprop(el, prop, val, bucket, name):
+        if prop == 'labels':
+            new = Labels(local_name='edited%d' % val)
+            if canon_j(el.get_labels()) == canon_j(new):
+                return
+            el.set_labels(new)
+            exp['modified'][bucket].setdefault(name, set()).add('LABELS')
+        elif prop == 'capacities':
+            new = Capacities(unit=val + 10)
+            if canon_j(el.get_capacities()) == canon_j(new):
+                return
+            el.set_capacities(new)
+            exp['modified'][bucket].setdefault(name, set()).add('CAPACITIES')
+        else:
+            new = UserData(json.dumps({'edited': val}))
+            cur = el.get_user_data()
+            if cur is not None and cur.data == new.data:
+                return
+            el.set_user_data(new)
+            exp['modified'][bucket].setdefault(name, set()).add('USER_DATA')
+    applied = []
+    for e in s['edits']:
+        k = e['kind']
+        cs, ss = sorted(comps(b)), sorted(svcs(b))
+        untouched_c = [c for c in cs if c not in exp['modified']['components'] and c not in exp['added']['components']]
+        untouched_s = [x for x in ss if x not in exp['modified']['services']]
+        if k == 'remove_component' and untouched_c:
+            c = untouched_c[e['pick'] % len(untouched_c)]
+            b.attached_components_info.remove_device(c)
+            exp['removed']['components'].add(c)
+        elif k == 'remove_all_components' and cs and not exp['added']['components'] and not exp['modified']['components']:
+            for c in cs:
+                b.attached_components_info.remove_device(c)
+                exp['removed']['components'].add(c)
+        elif k == 'remove_service' and untouched_s:
+            x = untouched_s[e['pick'] % len(untouched_s)]
+            b.network_service_info.remove_network_service(x)
+            exp['removed']['services'].add(x)
+        elif k == 'remove_all_services' and ss and not exp['modified']['services']:
+            for x in ss:
+                b.network_service_info.remove_network_service(x)
+                exp['removed']['services'].add(x)
+        elif k == 'node_prop':
+            setprop(b, e['prop'], e['val'], 'nodes', a.resource_name)
+        elif k == 'component_prop' and untouched_c:
+            c = untouched_c[e['pick'] % len(untouched_c)]
+            if c in exp['removed']['components']:
+                continue
+            setprop(comps(b)[c], e['prop'], e['val'], 'components', c)
+        elif k == 'service_prop' and untouched_s:
+            x = untouched_s[e['pick'] % len(untouched_s)]
+            setprop(svcs(b)[x], e['prop'], e['val'], 'services', x)
+        elif k == 'user_data_rmw':
+            # read - modify - write: what .data hands out is the caller's to change
+            cur = a.get_user_data()
+            d = cur.data if cur is not None else {}
+            if not isinstance(d, dict):
+                continue
+            d['rmw'] = e['val']
+            if canon_j(b.get_user_data()) == canon(json.dumps(d, sort_keys=True)):
+                continue
+            b.set_user_data(UserData(json.dumps(d)))
+            exp['modified']['nodes'].setdefault(a.resource_name, set()).add('USER_DATA')
+        elif k == 'add_component' and cs and 'copyX' not in cs:
+            c2 = copy.deepcopy(comps(b)[cs[e['pick'] % len(cs)]])
+            c2.set_name('copyX')
+            c2.node_id = 'copy-of-' + str(c2.node_id)
+            b.attached_components_info.add_device(c2)
+            exp['added']['components'].add('copyX')
+        else:
+            continue
+        applied.append(k)
+    if not applied:
+        raise SkipStep()
+    rexp = swap(exp)
+    try:
+        d_ab, d_ba = normalise_diff(a.diff(b)), normalise_diff(b.diff(a))
+    except Exception as ex:
+        w.flag('C17', 'diff_exact', {'what': 'copy', 'symptom': 'raised', 'exc': type(ex).__name__},
+               'diff of node sliver %s with its edited copy (%s) raised %r' % (s['node'], applied, ex))
+        return
+    for got, want, direction in ((d_ab, exp, 'original->copy'), (d_ba, rexp, 'copy->original')):
+        if is_empty(want):
+            if got is not None:
+                w.flag('C17', 'diff_exact', {'what': 'copy', 'symptom': 'difference_where_none'},
+                       'node %s %s after %s: nothing differs, the library reports %s' % (s['node'], direction, applied, show(got)))
+            continue
+        if got is None:
+            w.flag('C17', 'diff_exact', {'what': 'copy', 'symptom': 'none_where_difference', 'edits': '+'.join(sorted(set(applied)))},
+                   'node %s %s after the edits %s on a copy: expected %s, the library reports no difference' %
+                   (s['node'], direction, applied, show(want)))
+            return
+        for part in ('added', 'removed'):
+            for k in ('components', 'services'):
+                if got[part].get(k, set()) != want[part][k]:
+                    w.flag('C17', 'diff_exact', {'what': 'copy', 'part': part, 'kind': k},
+                           'node %s %s after %s: %s %s expected %s, library reports %s' %
+                           (s['node'], direction, applied, part, k, sorted(want[part][k]), sorted(got[part].get(k, set()))))
+                    return
+        for k in ('nodes', 'components', 'services'):
+            g = {n_: sorted(f - {'SUB_INTERFACES'}) for n_, f in got['modified'].get(k, {}).items() if f - {'SUB_INTERFACES'}}
+            wv = {n_: sorted(f) for n_, f in want['modified'][k].items()}
+            if g != wv:
+                w.flag('C17', 'diff_exact', {'what': 'copy', 'part': 'modified', 'kind': k},
+                       'node %s %s after %s: modified %s expected %s, library reports %s' %
+                       (s['node'], direction, applied, k, wv, g))
+                return
+    w.stats.inc('probe.diff.copy_edit.%s' % '+'.join(sorted(set(applied))))
+
+
+def canon_j(x):
+    """canonical JSON text of a Capacities/Labels/UserData object (None stays None)"""
+    if x is None:
+        return None
+    j = x.to_json() if hasattr(x, 'to_json') else x.json
+    try:
+        return canon(json.dumps(json.loads(j), sort_keys=True))
+    except Exception:
+        return canon(j)
